@@ -111,10 +111,15 @@ func (s *Server) typecheck(ctx context.Context, uri lsp.DocumentURI, version uin
 	_, err := compiler.Compile(ctx, uri.Filename(), content, compiler.Params{CheckOnly: true, Verbose: true})
 	for _, p := range status.FromError(err) {
 		rng, _, _ := strings.Cut(content[p.Origin.Offset:p.Origin.EndOffset], "\n")
+
+		// LSP positions are expressed in UTF-16 code units, while p.Origin.Column is in bytes.
+		lineStart := strings.LastIndexByte(content[:p.Origin.Offset], '\n') + 1
+		start := utf16Len(content[lineStart:p.Origin.Offset])
+		end := start + utf16Len(rng)
 		res = append(res, lsp.Diagnostic{
 			Range: lsp.Range{
-				Start: lsp.Position{Line: uint32(p.Origin.Line - 1), Character: uint32(p.Origin.Column - 1)},
-				End:   lsp.Position{Line: uint32(p.Origin.Line - 1), Character: uint32(p.Origin.Column - 1 + len(rng))},
+				Start: lsp.Position{Line: uint32(p.Origin.Line - 1), Character: uint32(start)},
+				End:   lsp.Position{Line: uint32(p.Origin.Line - 1), Character: uint32(end)},
 			},
 			Severity: lsp.DiagnosticSeverityError,
 			Message:  p.Msg,
